@@ -209,9 +209,19 @@ func (x *c11World) req(t ref.Tx) *ref.Tx {
 	return x.u.Reply(id)
 }
 
+// dangling: p is an alias whose target no longer exists (such an entry is not listed; what requests on
+// it do is not specified)
+func (m *c11Model) dangling(p string) bool {
+	v := m.ent[p]
+	return strings.HasPrefix(v, "-> $ROOT/") && !m.exists(strings.TrimPrefix(v, "-> $ROOT/"))
+}
+
 func (x *c11World) apply(op string) bool {
 	p := strings.Split(op, "|")
 	m := x.m
+	if len(p) > 1 && m.dangling(p[1]) {
+		return false
+	}
 	switch p[0] {
 	case "rename":
 		src, newName := p[1], p[2]
@@ -393,8 +403,12 @@ func (x *c11World) check() string {
 					n = len(m.visible(target))
 				}
 				dangling := 0
-				for q, v := range m.ent {
-					if dirOf(q) == join(d, filepath.Base(under)) && strings.HasPrefix(v, "-> $ROOT/") && !m.exists(strings.TrimPrefix(v, "-> $ROOT/")) {
+				childDir := join(d, filepath.Base(under))
+				if strings.HasPrefix(m.ent[under], "->") {
+					childDir = target
+				}
+				for q := range m.ent {
+					if dirOf(q) == childDir && m.dangling(q) {
 						dangling++
 					}
 				}
